@@ -154,7 +154,7 @@ def stage_order(ctx):
         ok = isinstance(e, ast.Tuple) and [x.id if isinstance(x, ast.Name) else None for x in e.elts] == u.params[1:4]
         ctx.ob(ok, u, 'a stage is recorded as (name, args, callback): %s' % (norm(e) if e is not None else None))
     def direction(unit):
-        for lp in [n for n in unit.own_nodes() if isinstance(n, ast.For)]:
+        for lp in [n for n in unit.own_nodes() if isinstance(n, (ast.For, ast.comprehension))]:
             it = lp.iter
             if isinstance(it, ast.Call) and is_name(it.func, 'reversed') and norm(it.args[0]) == 'self._iter_stack':
                 return 'reverse', lp
